@@ -20,6 +20,7 @@ import os
 import time
 
 import z3
+from queue import Empty
 
 import toasty.pyramid as tp
 from toasty.pyramid import Pos, Pyramid, pos_children, pos_parent
@@ -111,6 +112,87 @@ def learn(run):
         raise HarnessError("a completion report releases a tile other than the reporter's parent: " + detail)
     run.ob("dispatcher-learned", "confirmed", "E3:extraction", detail)
     return R1, f1
+
+
+GAP_DEPTH = 3
+GAP_ACCEPT = {Pos(1, 0, 0), Pos(2, 0, 0), Pos(3, 0, 0), Pos(3, 1, 0), Pos(3, 0, 1), Pos(3, 1, 1),     # a live branch down to four leaves
+              Pos(2, 1, 0),                                                                          # accepted, none of its children is
+              Pos(1, 1, 0)}                                                                          # accepted, none of its children is
+GAP_LIVE = [Pos(2, 0, 0), Pos(1, 0, 0), Pos(0, 0, 0)]                                                  # the live non-leaf tiles, children first
+
+
+def gap_pyramid():
+    return Pyramid.new_toast_filtered(GAP_DEPTH, lambda t: t.pos in GAP_ACCEPT)
+
+
+def timeout_reaction():
+    """What does the REAL dispatch loop do when a receive on the done queue times out?  The real walk(parallel=2) runs
+    against recording fakes on a pyramid that has filter-accepted tiles without any live child; a time-out (Empty) is
+    injected before every completion report.  -> list of (after how many reports, [ops other than status polling])."""
+    rec = mpmodel.Recorder()
+    reports = list(GAP_LIVE)
+    state = dict(k=0, empty_next=True, mark=None, effects=[])
+
+    def responder():
+        if state["mark"] is not None:
+            ops = [op for op in rec.ops[state["mark"]:] if op[0] in ("put", "set", "close", "join_thread")]
+            if ops:
+                state["effects"].append((state["k"], ops))
+            state["mark"] = None
+        if state["empty_next"]:
+            state["empty_next"] = False
+            state["mark"] = len(rec.ops)
+            return Empty
+        state["empty_next"] = True
+        if state["k"] < len(reports):
+            state["k"] += 1
+            return reports[state["k"] - 1]
+        raise mpmodel.Stop()
+
+    fake = mpmodel.recording_mp(rec, {1: responder})
+    with mpmodel.patched_mp(fake):
+        try:
+            gap_pyramid().walk(lambda pos: None, parallel=2)
+        except mpmodel.Stop:
+            pass
+    return state["effects"]
+
+
+def replay_gap(n_main_polls=2):
+    """Real walk(parallel=2) on the gap pyramid under the deterministic scheduler: the dispatcher is scheduled while the
+    done queue is still empty (its receive times out), then everything runs freely.  -> callbacks that ran."""
+    events = []
+
+    def entry(S):
+        def cb(pos):
+            S.op("cb_start")
+            events.append(pos)
+            S.op("cb_end")
+        gap_pyramid().walk(cb, parallel=2)
+
+    res = mpmodel.replay(entry, ["main"] * (1 + 2 + n_main_polls), snapshot=lambda: list(events))
+    res["events"] = events
+    res["not_live"] = [p for p in events if p not in GAP_LIVE]
+    return res
+
+
+def check_timeout_noop(run):
+    nm = "dispatcher-timeout-is-a-no-op"
+    eff = timeout_reaction()
+    if not eff:
+        run.ob(nm, "confirmed", "E3:extraction", "a receive time-out on the done queue (injected before each of the %d reports, on a pyramid with two filter-accepted tiles that have no live child) only polls the workers' status: "
+               "nothing is released, flagged or closed — so releases happen exactly at the modelled 'consume' steps" % len(GAP_LIVE))
+        return
+    obs = replay_gap()
+    run.replays += 1
+    if obs["not_live"] or not (obs.get("returned") or obs.get("raised")):
+        text = ("# real walk(parallel=2) on a pyramid with filter-accepted tiles that have no live child; the dispatcher's receive times out once before any report\n"
+                "import sys\nsys.path.insert(0, %r)\nimport props.C01 as P\nobs = P.replay_gap()\nprint(obs['events'], 'not live:', obs['not_live'], obs.get('returned'))\n"
+                "sys.exit(1 if (obs['not_live'] or not (obs.get('returned') or obs.get('raised'))) else 0)\n") % (str(__import__("vlib.core").core.VERIF),)
+        run.violation(nm, "walk:timeout-releases-tiles", "the dispatch loop reacts to a receive time-out with %r; real walk(parallel=2) with the dispatcher timing out once: callbacks ran for %r which have no reachable leaf beneath them (returned=%s)" % (
+            eff[:2], obs["not_live"], obs.get("returned")), text, "E3:extraction+detsched")
+    else:
+        run.error(nm, "the dispatch loop reacts to a receive time-out with %r (not modelled), but the directed real run shows no wrong callback: %r" % (eff[:2], obs["events"]))
 
 
 def shutdown_script(cfg, n_workers):
@@ -378,6 +460,7 @@ def check(run):
                           "# worker order observed by probing the real _mp_walk_worker\nprint(%r)\nraise SystemExit(1)\n" % (table["post_item"],), "E3:extraction")
             return
         run.ob("worker-table", "confirmed", "E3:extraction", "real _mp_walk_worker: %s" % table)
+        check_timeout_noop(run)
         plans = [(S1, 2, 2), (S2, 2, None), (S3, 2, None)]
         if run.tier == "thorough":
             plans = [(S1, 2, None), (S2, 2, None), (S3, 2, None), (S1, 3, 2), (S2, 3, None), (S2W, 2, None)]
